@@ -22,7 +22,8 @@ RULE = ('case = (dialogue of <= 4 steps + exit, event table, mode, withexitstatu
 ASSUMPTIONS = ['event patterns are atomic tokens (P1, P2, P[0-9]) so that chunking cannot legitimately change which occurrence matches',
                'for tables with a TIMEOUT key only the output and the pattern responses are judged (the number of TIMEOUT events depends on timing)']
 REQUIRED_FLAGS = {'event_answered': 1, 'timeout_event': 1, 'callback_stop': 1, 'split_occurrence': 1, 'list_priority': 1, 'exit_code': 1,
-                  'search_window_kwarg': 1, 'detached_then_exits_later': 1, 'run_after_truncated_run': 1}
+                  'search_window_kwarg': 1, 'detached_then_exits_later': 1, 'run_after_truncated_run': 1,
+                  'timeout_exactly_zero': 1}
 
 T = 0.3
 STEPS = ['E0', 'E1', 'E2', 'ES', 'EZ', 'W', 'Z', 'H']
@@ -58,7 +59,8 @@ class Peer(object):
     def emit(self, data):
         if self.hung:
             return                                # the child gave up its terminal: nothing it writes goes anywhere
-        late = self.sp.ptyproc.fileobj.closed     # run() has already stopped and is closing the child
+        pp = getattr(self.sp, 'ptyproc', None)
+        late = pp is not None and pp.fileobj.closed     # run() has already stopped and is closing the child
         if not late:
             self.emitted.append((self.env.now(), data))
         self.env.peer_write(self.sp.hs_slave, data)
@@ -161,12 +163,14 @@ def tables(mode, rec):
         # the later-listed pattern starts earlier in the stream and ends later: stream order decides
         'list-overlap-later-starts-earlier': [(S('P1'), S('spec\n')), (S('ask P1 '), S('long\n'))],
         'timeout-stop': [(TIMEOUT, cb_tstop)],
+        # the same pattern listed twice: the first entry answers, the second is never used
+        'list-duplicate-pattern': [(S('P1'), S('first\n')), (S('P2'), cb_str), (S('P1'), cb_true)],
     }
 
 
 TABLES = ['none', 'dict-str', 'list-str-fn', 'list-overlap-general-first', 'list-overlap-specific-first',
           'dict-cb-none-method-stop', 'list-timeout-event', 'dict-eof-event', 'list-cb-true',
-          'list-overlap-later-starts-earlier', 'timeout-stop']
+          'list-overlap-later-starts-earlier', 'timeout-stop', 'list-duplicate-pattern']
 
 
 def bounds(tier):
@@ -181,7 +185,8 @@ def tasks(tier):
     return out
 
 
-def run_case(task, steps, code, withexit, sw=None):
+def run_case(task, steps, code, withexit, sw=None, Tcase=None):
+    Tcase = T if Tcase is None else Tcase
     E.install()
     prun = sys.modules['pexpect.run']
     env = E.Env(Chooser(()))
@@ -196,6 +201,7 @@ def run_case(task, steps, code, withexit, sw=None):
             box['sp'] = sp
             box['peer'] = Peer(env, sp, steps, code)
             env.pump = box['peer'].pump
+            box['peer'].pump()        # a child starts writing as soon as it exists, not at the library's first system call
         env.on_spawn = on_spawn
         events = tables(mode, rec)[task['table']]
         saved = prun.spawn
@@ -204,7 +210,7 @@ def run_case(task, steps, code, withexit, sw=None):
         try:
             try:
                 kw = {} if sw is None else {'searchwindowsize': sw}
-                out = prun.run('/bin/true', timeout=T, withexitstatus=withexit, events=events, encoding=enc, **kw)
+                out = prun.run('/bin/true', timeout=Tcase, withexitstatus=withexit, events=events, encoding=enc, **kw)
             except E.Hang:
                 raise
             except Cut:
@@ -305,19 +311,24 @@ def run_task(task):
     acc = Acc()
     q = task['tier'] == 'quick'
     maxlen = 3 if q else 4
-    variants = [(0, False, None), (7, True, None)]
+    variants = [(0, False, None, None), (7, True, None, None)]
     if task['table'] in ('none', 'timeout-stop'):
         # a search window given through run()'s keyword arguments (only where no text pattern is listed: what a
         # window may legitimately hide from a pattern is C03's subject)
-        variants += [(0, False, 4), (7, True, 4)]
+        variants += [(0, False, 4, None), (7, True, 4, None)]
+    if task['table'] in ('none', 'timeout-stop', 'dict-str'):
+        # timeout exactly 0 ("just poll"): everything the child has written by then is still returned / answered
+        variants += [(7, True, None, 0)]
     for n in range(0, maxlen + 1):
         for steps in itertools.product(STEPS, repeat=n):
-            for code, withexit, sw in variants:
+            for code, withexit, sw, Tc in variants:
                 if 'H' in steps and steps.index('H') != len(steps) - 1 and not (steps[-1] == 'Z' and steps.index('H') == len(steps) - 2):
                     continue       # after detaching the child only waits and exits
-                obs, viol = run_case(task, steps, code, withexit, sw)
+                obs, viol = run_case(task, steps, code, withexit, sw, Tc)
                 if sw is not None:
                     acc.flags['search_window_kwarg'] += 1
+                if Tc == 0:
+                    acc.flags['timeout_exactly_zero'] += 1
                 if 'H' in steps and steps[-1] == 'Z' and withexit:
                     acc.flags['detached_then_exits_later'] += 1
                 acc.execs += 1
@@ -342,7 +353,7 @@ def run_task(task):
                 if viol:
                     acc.violation('%s:%s:%s' % (task['table'], task['mode'], viol[0]),
                                   'dialogue %r exit %d: %s' % (steps, code, viol[1]),
-                                  dict(task=task, steps=list(steps), code=code, withexit=withexit, sw=sw))
+                                  dict(task=task, steps=list(steps), code=code, withexit=withexit, sw=sw, Tc=Tc))
     if task['mode'] != 'bytes':
         # two runs one after the other in this process; the first child's output stops inside a character
         for first in (('EU',), ('E0', 'EU'), ('EU', 'Z')):
@@ -369,7 +380,7 @@ def replay(spec):
     task = spec['task']
     if spec.get('first'):
         run_case(task, tuple(spec['first']), 0, False)
-    obs, viol = run_case(task, tuple(spec['steps']), spec['code'], spec['withexit'], spec.get('sw'))
+    obs, viol = run_case(task, tuple(spec['steps']), spec['code'], spec['withexit'], spec.get('sw'), spec.get('Tc'))
     out = {'observation': {k: repr(v) for k, v in obs.items()}, 'violation': None}
     if viol:
         out['violation'] = {'key': '%s:%s:%s%s' % (task['table'], task['mode'], 'after-truncated-run:' if spec.get('first') else '', viol[0]),
